@@ -235,7 +235,7 @@ def _install_fna(res):
     def find_nearby_atoms(self, atom):
         result = orig(self, atom)
         real = self.cells
-        if getattr(real, "_vf_bio", None) is None or FNA.get("busy"):
+        if real is None or FNA.get("busy"):
             return result
         FNA["busy"] = True
         try:
